@@ -38,7 +38,7 @@ def draw_tree(d, fam, N, tier, kind, n, depth):
     if depth == 0 or d.draw(st.integers(0, 3)) == 0:
         if kind == 'mps':
             return {'op': 'leaf', 'kind': 'mps', 'desc': G.draw_state_desc(d, fam, N, tier, n=n,
-                                                                           kinds=('random', 'random', 'product', 'from_tensor') if N <= 4 else ('random', 'product'))}
+                                                                           kinds=('random', 'random', 'product', 'from_tensor', 'product_cyclic') if N <= 4 else ('random', 'product', 'product_cyclic'))}
         return {'op': 'leaf', 'kind': 'mpo', 'desc': G.draw_mpo_desc(d, fam, N, tier)}
     opts = ['add', 'scal', 'copy', 'matmul', 'add', 'scal']
     # conj() flips the signatures of the virtual legs as well, so conjugated and plain objects cannot be added or measured
@@ -98,6 +98,13 @@ def draw_case(data, tier):
 
 # ---- evaluation ---------------------------------------------------------------------------------------------------------
 
+def JWkron(vs):
+    out = np.ones(1)
+    for v_ in vs:
+        out = np.kron(out, v_)
+    return out
+
+
 _SCALES = []     # norms of the operands met while evaluating a tree (errors are relative to them: a sum may cancel exactly)
 
 
@@ -109,6 +116,13 @@ def ev(tree, fam, N, sp, extra):
         if obj is None:
             raise Reject('zero_random_state')
         dn = G.mps_dense(obj, sp)
+        if tree['kind'] == 'mps' and tree['desc']['kind'] in ('product', 'product_cyclic'):
+            # product states: the Kronecker product of the local basis vectors (the list repeated cyclically when shorter than the chain)
+            occ = tree['desc']['occ']
+            ref = JWkron([np.eye(sp.d)[:, occ[j % len(occ)]] for j in range(N)])
+            ref = ref * tree['desc'].get('factor', 1) * (1j if tree['desc']['dtype'] == 'complex128' else 1)
+            if dn.shape != ref.shape or np.linalg.norm(dn - ref) > 1e-12 * max(1.0, np.linalg.norm(ref)):
+                raise Violation('leaf:product_state', f"product_mps of occupations {occ} (N = {N}) is not the Kronecker product of the local vectors")
         _SCALES.append(float(np.linalg.norm(dn)))
         return obj, dn, {'leaf:' + tree['desc']['kind']}
     if o == 'add':
